@@ -273,4 +273,98 @@ theorem crc_text (out p : Bytes) (hsuf : (10 :: p).isSuffixOf (Tty.cook out ++ p
   rw [htake, hc', text_crc_restore]
   simp
 
+/-! ### `exec` -/
+
+theorem isCrc_eq (P : Bytes) (args : List Bytes) (s : St) (hpr : s.prompt = some (.lit P)) :
+    isCrc args s = (args.head? == some crcName && P == crcPrompt) := by
+  unfold isCrc
+  rw [hpr]
+
+theorem crcOverride_eq : Params.ubootCrcOverride = 10 :: crcPrompt := by decide
+
+/-- **`exec` over the console**, whatever the console does with the argument vector (`dispatch`):
+    the call returns the status the console reported and the text of exactly what the command
+    printed; the console saw exactly `args`, then `echo $?` -/
+theorem exec_general (P : Bytes) (hP : P ≠ []) (args : List Bytes) (ss : Sess) (hinv : Inv P ss)
+    (hne : args ≠ []) (hp : ∀ a ∈ args, a.all Hush.printable = true)
+    (hgood : (cmdWins P args (dispatch args ss.con).1 (dispatch args ss.con).2.status).all Win.good = true) :
+    ∃ ss', exec args ss
+        = (.ok ((dispatch args ss.con).2.status, text (Tty.cook (dispatch args ss.con).1)), ss')
+      ∧ Inv P ss'
+      ∧ ss'.con = { (dispatch args ss.con).2 with
+                      status := 0, ran := (dispatch args ss.con).2.ran ++ [Ran.status] } := by
+  have hdl := dispatch_line args ss.con
+  have hdp := dispatch_prompt args ss.con
+  rw [hinv.line] at hdl
+  rw [hinv.cprompt] at hdp
+  -- the command line
+  have hforb : Chan.forbidden ss.st.blacklist (Hush.escape args ++ [CR]) = false := by
+    rw [hinv.bl]; exact escape_sendable args hp
+  obtain ⟨ss1, hsend, hcon1, hflat1, hwf1, hk1⟩ :=
+    sendLoopRB_line ((Hush.escape args).length + 2) (Hush.escape args) ss (by omega) hinv.quiet hinv.script
+      (escape_ordinary args hp) hforb
+  have hsl : sendlineRB (Hush.escape args) ss = (.ok (), ss1) := by
+    unfold sendlineRB
+    simp only [hforb, Bool.false_eq_true, if_false, hsend]
+  have hrun : runLine (ss.con.line ++ Hush.escape args) { ss.con with line := [] } = dispatch args ss.con := by
+    rw [hinv.line, List.nil_append, con_line_eta _ hinv.line, runLine_escape args hne hp]
+  rw [hrun] at hcon1 hflat1
+  rw [hinv.cprompt] at hflat1
+  generalize dispatch args ss.con = d at hgood hdl hdp hcon1 hflat1 ⊢
+  have hq1 : Quiet ss1.st := hinv.quiet.keeps hk1 hwf1
+  have hpr1 : ss1.st.prompt = some (.lit P) := by rw [hk1.prompt]; exact hinv.prompt
+  -- the two windows
+  simp only [cmdWins, winsOf, List.all_cons, List.all_nil, Bool.and_true, Bool.and_eq_true] at hgood
+  obtain ⟨hw1, hw2⟩ := hgood
+  obtain ⟨hsuf1, honly1⟩ := (good_iff _).mp hw1
+  simp only at hsuf1 honly1
+  -- the output
+  have hout : ∃ b w s2,
+      readOutput (if isCrc args ss.st = true then some (Pat.lit Params.ubootCrcOverride) else none) ss1.st
+        = (.ok (b, w), s2)
+      ∧ s2.script = [] ∧ Keeps ss1.st s2
+      ∧ (if (if isCrc args ss.st = true then some (Pat.lit Params.ubootCrcOverride) else none).isSome = true
+          then stripCr (text b) ++ ['\n'] else text b) = text (Tty.cook d.1) := by
+    rw [isCrc_eq P args ss.st hinv.prompt]
+    unfold effPrompt at hsuf1 honly1
+    by_cases hc : (args.head? == some crcName && P == crcPrompt) = true
+    · rw [if_pos hc] at hsuf1 honly1
+      have hPeq : P = crcPrompt := by
+        simp only [Bool.and_eq_true, beq_iff_eq] at hc
+        exact hc.2
+      obtain ⟨s2, hro, hsc2, hk2⟩ := readOutput_ovr Params.ubootCrcOverride (Tty.cook d.1 ++ P) ss1.st hq1
+        (by decide) hflat1 hsuf1 honly1
+      refine ⟨_, _, s2, by rw [if_pos hc]; exact hro, hsc2, hk2, ?_⟩
+      rw [if_pos hc]
+      simp only [Option.isSome_some, if_true]
+      rw [crcOverride_eq, ← hPeq] at hsuf1 ⊢
+      exact crc_text d.1 P hsuf1
+    · rw [if_neg hc] at hsuf1 honly1
+      obtain ⟨s2, hro, hsc2, hk2⟩ := readOutput_plain P (Tty.cook d.1 ++ P) ss1.st hq1 hpr1 hP hflat1 hsuf1 honly1
+      refine ⟨_, _, s2, by rw [if_neg hc]; exact hro, hsc2, hk2, ?_⟩
+      rw [if_neg hc]
+      simp only [Option.isSome_none, Bool.false_eq_true, if_false, take_sub_append]
+  obtain ⟨b, w, s2, hro, hsc2, hk2, htext⟩ := hout
+  -- the status
+  have hwf2 : WF s2 := by intro q hq; rw [hsc2] at hq; simp at hq
+  have hinv2 : Inv P { ss1 with st := s2 } := {
+    quiet := hinv.quiet.keeps (hk1.trans hk2) hwf2
+    script := hsc2
+    prompt := by show s2.prompt = _; rw [hk2.prompt]; exact hpr1
+    bl := by show s2.blacklist = _; rw [hk2.blacklist, hk1.blacklist]; exact hinv.bl
+    line := by show ss1.con.line = []; rw [hcon1]; exact hdl
+    cprompt := by show ss1.con.prompt = P; rw [hcon1]; exact hdp }
+  obtain ⟨ss3, hfr, hinv3, hcon3⟩ := fetchRetcode_spec P hP { ss1 with st := s2 } hinv2 (by
+    show Win.good ⟨echoStatus.length + 2, statusBytes ss1.con.status ++ CRLF ++ P, P⟩ = true
+    rw [hcon1]; exact hw2)
+  have hst : ({ ss1 with st := s2 } : Sess).con = d.2 := hcon1
+  have hfr' : fetchRetcode { ss1 with st := s2 } = (.ok d.2.status, ss3) := by
+    rw [hfr]
+    show (Except.ok ss1.con.status, ss3) = _
+    rw [hcon1]
+  rw [hst] at hcon3
+  refine ⟨ss3, ?_, hinv3, hcon3⟩
+  unfold exec
+  simp only [hsl, hro, hfr', htext]
+
 end UBootExec
